@@ -17,6 +17,15 @@ impl SerdeParser {
 
         for attr in attrs {
             if attr.path().is_ident("serde") {
+                // Walk the attribute structurally so that `rename_all` is only recognised as
+                // an attribute key, never inside another attribute's value
+                if let Some(parsed) = Self::parse_structured(attr) {
+                    if parsed.rename_all.is_some() {
+                        result.rename_all = parsed.rename_all;
+                    }
+                    continue;
+                }
+
                 if let Ok(tokens) = syn::parse2::<syn::MetaList>(attr.meta.to_token_stream()) {
                     let tokens_str = tokens.tokens.to_string();
 
@@ -40,6 +49,17 @@ impl SerdeParser {
 
         for attr in attrs {
             if attr.path().is_ident("serde") {
+                // Walk the attribute structurally: `skip` and `rename` count only as attribute
+                // keys (not inside `default = "skip_it"` or `rename = "skip"`), and the rename
+                // value is the string literal's value, escapes included
+                if let Some(parsed) = Self::parse_structured(attr) {
+                    result.skip |= parsed.skip;
+                    if parsed.rename.is_some() {
+                        result.rename = parsed.rename;
+                    }
+                    continue;
+                }
+
                 if let Ok(tokens) = syn::parse2::<syn::MetaList>(attr.meta.to_token_stream()) {
                     let tokens_str = tokens.tokens.to_string();
 
@@ -57,6 +77,74 @@ impl SerdeParser {
         }
 
         result
+    }
+
+    /// Walk `#[serde(...)]` with syn's nested-meta parser.
+    /// Returns `None` when the attribute is not a list or cannot be walked.
+    fn parse_structured(attr: &Attribute) -> Option<StructuredSerdeAttributes> {
+        if !matches!(attr.meta, syn::Meta::List(_)) {
+            return None;
+        }
+
+        let mut result = StructuredSerdeAttributes::default();
+
+        attr.parse_nested_meta(|meta| {
+            if meta.path.is_ident("skip") {
+                result.skip = true;
+                Self::skip_meta_value(&meta)
+            } else if meta.path.is_ident("rename") {
+                if let Some(value) = Self::string_or_serialize_value(&meta)? {
+                    result.rename = Some(value);
+                }
+                Ok(())
+            } else if meta.path.is_ident("rename_all") {
+                if let Some(value) = Self::string_or_serialize_value(&meta)? {
+                    result.rename_all = RenameRule::from_rename_all_str(&value).ok();
+                }
+                Ok(())
+            } else {
+                Self::skip_meta_value(&meta)
+            }
+        })
+        .ok()?;
+
+        Some(result)
+    }
+
+    /// Value of `key = "value"` or of `key(serialize = "value", ...)`
+    fn string_or_serialize_value(meta: &syn::meta::ParseNestedMeta) -> syn::Result<Option<String>> {
+        if meta.input.peek(syn::Token![=]) {
+            return Ok(Some(meta.value()?.parse::<syn::LitStr>()?.value()));
+        }
+
+        let mut serialize = None;
+        let mut deserialize = None;
+        if meta.input.peek(syn::token::Paren) {
+            meta.parse_nested_meta(|inner| {
+                if inner.path.is_ident("serialize") {
+                    serialize = Some(inner.value()?.parse::<syn::LitStr>()?.value());
+                    Ok(())
+                } else if inner.path.is_ident("deserialize") {
+                    deserialize = Some(inner.value()?.parse::<syn::LitStr>()?.value());
+                    Ok(())
+                } else {
+                    Self::skip_meta_value(&inner)
+                }
+            })?;
+        }
+        Ok(serialize.or(deserialize))
+    }
+
+    /// Consume an optional `= value` or `(...)` following a meta path
+    fn skip_meta_value(meta: &syn::meta::ParseNestedMeta) -> syn::Result<()> {
+        if meta.input.peek(syn::Token![=]) {
+            meta.value()?.parse::<syn::Expr>()?;
+        } else if meta.input.peek(syn::token::Paren) {
+            let content;
+            syn::parenthesized!(content in meta.input);
+            content.parse::<proc_macro2::TokenStream>()?;
+        }
+        Ok(())
     }
 
     /// Parse rename_all value like "camelCase", "snake_case", "PascalCase", etc. to
@@ -117,6 +205,14 @@ impl Default for SerdeParser {
     fn default() -> Self {
         Self::new()
     }
+}
+
+/// Everything the structured walk can find in one `#[serde(...)]` attribute
+#[derive(Debug, Default)]
+struct StructuredSerdeAttributes {
+    rename_all: Option<RenameRule>,
+    rename: Option<String>,
+    skip: bool,
 }
 
 /// Struct-level serde attributes
